@@ -231,7 +231,10 @@ func hC05(prefixIdx, nops, vlen int, crash bool, layout int, fullDistinct bool, 
 // case = prefix (4) x layout (3) x first writer operation (6) = 72 cases
 func H_C05_q()     { c := vCase(); hC05(c%4, 1, 2, false, (c/4)%3, true, false) }
 func H_C05_r()     { c := vCase(); hC05(c%4, 1, 2, false, (c/4)%3, true, true) }
-func H_C05_t()     { c := vCase(); hC05(c%4, 2, 2, false, (c/4)%3, false, false) }
+func H_C05_t()     { c := vCase(); hC05(c%4, 2, 2, false, (c/4)%3, true, false) }
+
+// one writer operation, full 32-bit hash collisions between keys allowed
+func H_C05_fc() { c := vCase(); hC05(c%4, 1, 2, false, (c/4)%3, false, false) }
 func H_C05_crash() { c := vCase(); hC05(c%4, 1, 2, true, (c/4)%3, true, false) }
 
 // hC05seqcrash: no concurrency; the process dies at every mutating file-system
